@@ -34,11 +34,13 @@ LEMMA NextInv == IndInv /\ [Next]_vars => IndInv'
   BY <1>3, NoneNotOpener, NoBug DEF CloseFiles, CloseUnlock, Tick, IndInv, TypeOK, Excl, Held
 <1>6. ASSUME NEW o \in Openers, Work(o) PROVE IndInv'
   BY <1>6, NoneNotOpener, NoBug DEF Work, Tick, IndInv, TypeOK, Excl, Held
+<1>7. ASSUME NEW o \in Openers, Die(o) PROVE IndInv'
+  BY <1>7, NoneNotOpener DEF Die, Tick, IndInv, TypeOK, Excl, Held
 <1>4. ASSUME Flip PROVE IndInv'
   BY <1>4, NoneNotOpener DEF Flip, Kinds, Tick, IndInv, TypeOK, Excl, Held
 <1>5. ASSUME UNCHANGED vars PROVE IndInv'
   BY <1>5 DEF vars, IndInv, TypeOK, Excl, Held
-<1> QED BY <1>1, <1>2, <1>3, <1>4, <1>5, <1>6 DEF Next
+<1> QED BY <1>1, <1>2, <1>3, <1>4, <1>5, <1>6, <1>7 DEF Next
 
 \* the properties TLC checks follow from the inductive invariant
 LEMMA InvImplies == IndInv => (LockReleased /\ HolderIsOpener)
